@@ -267,9 +267,11 @@ def make_case(seed, cid, quick=True, family=None, dim=None, topo=None, widenings
             L.append("#! same %d %d" % (r0, res[1])); L.append("#! same %d %d" % (r0, res[2]))
             L.append("cert %d" % r0); L.append("cert %d" % res[1])
             L.append("#! samecert %d %d" % (r0, res[1]))
-            L.append("cmp %d %d" % (x, r0))
-            if r.random() < 0.3: L.append("cmp %d %d" % (r0, x))
-            L.append("#! step %s %d %d" % (w, x, r0))
+            # the iteration continues on either representation (the results are the same set, or a finding)
+            nx = res[r.choice([0, 0, 1])]
+            L.append("cmp %d %d" % (x, nx))
+            if r.random() < 0.3: L.append("cmp %d %d" % (nx, x))
+            L.append("#! step %s %d %d" % (w, x, nx))
             # the variants are judged against the plain widening of the SAME representation pair
             if r.random() < p_extra:
                 for (t, pi) in [(1, 0), (r.choice([2, 3]), 1), (0, 2)]:
@@ -284,9 +286,13 @@ def make_case(seed, cid, quick=True, family=None, dim=None, topo=None, widenings
                 if r.random() < 0.5:
                     pi = r.choice([0, 1, 2])
                     i = fresh(); L.append("lim %s %s %d %d %d %d %s plain %d" % (w, r.choice(["limited", "bounded"]), i, pairs[pi][0], pairs[pi][1], r.choice([0, 1, 2]), fmt_cons(cs), res[pi]))
-            X[w] = r0; iterates[w].append(r0)
+            X[w] = nx; iterates[w].append(nx)
     # the multiset ordering on the certificates met along the way
     allit = sorted(set(i for w in widenings for i in iterates[w]))
+    # the transcribed comparisons against the library's on arbitrary pairs (the model is the code as written,
+    # nested or not)
+    for _ in range(4):
+        L.append("cmp %d %d" % (r.choice(allit), r.choice(allit)))
     for _ in range(2):
         xs = [r.choice(allit) for _ in range(r.randint(1, 4))]
         ysl = [r.choice(allit) for _ in range(r.randint(1, 4))]
@@ -399,7 +405,8 @@ def make_cases(seed, n, quick=True, start=0, shapes=0.3):
     for i in range(n):
         r = random.Random(seed * 100003 + i)
         if r.random() < shapes:
-            out.append(make_shape_case(seed * 100003 + i, "s%d" % (start + i), quick))
+            # an independent stream for the case itself (the selection draw above must not bias its first choices)
+            out.append(make_shape_case(seed * 100003 + i + 50021, "s%d" % (start + i), quick))
         else:
             out.append(make_case(seed * 100003 + i, "g%d" % (start + i), quick))
     return out
